@@ -86,5 +86,11 @@ def main(args):
         rnok, rbad, _ = judge.judge_trace("ResTrace.tla", "ResTrace.cfg", p, o, "resource trace " + what)
         log("[selftest] resource trace, %s -> %s" % (what, [b["clause"] for b in rbad][:2] or "accepted (%s steps)" % rnok))
         ok = ok and (bool(rbad) if drop else not rbad)
+    # (e) judge unit test (Correction 14): two clients with the same delete in flight; only the stale read (idx 4) may be rejected
+    here = os.path.dirname(os.path.abspath(__file__))
+    _, cbad, _ = judge.judge_trace("CrashJudge.tla", "CrashJudge.cfg", os.path.join(here, "..", "spec", "tests", "crashjudge_two_deletes_in_flight.ndjson"), o, "crash judge unit test")
+    got = [(b["idx"], b["clause"]) for b in cbad]
+    log("[selftest] crash judge, two identical deletes in flight -> %s" % got)
+    ok = ok and got == [(4, "acknowledged-write-lost-or-stale")]
     log("[selftest] %s" % ("OK" if ok else "FAILED"))
     return 0 if ok else 2
